@@ -204,10 +204,29 @@ def reqOf (hdr : List String) (me : Bool) (fee : Int) : CloseReq :=
     customSeq := if rbf then some maxRBFSequence else none
     customLock := if rbf then some ((kvNat? hdr "lock").getD 0) else none }
 
+def optsOf (r : CloseReq) : CloseOpts :=
+  { customSeq := r.customSeq, customLock := r.customLock, customPayer := r.payer }
+
+/-- `CreateCloseProposal` on a channel that has not latched `isClosed` (`Chan.proposalTx`, the
+    model function with CreateCloseProposal's own option plumbing). -/
 def modelProp (v : View) (r : CloseReq) : String × String × Int :=
-  match closeProposal v r with
+  match ({ v := v } : Chan).proposalTx r.fee r.localScript r.remoteScript r.lop r.rop (optsOf r) with
   | .ok (tx, bal) => ("ok", renderTx tx, bal)
-  | .error e => (errName e, "", 0)
+  | .error (.close e) => (errName e, "", 0)
+  | .error .closing => ("closing", "", 0)
+  | .error .sigReject => ("sigreject", "", 0)
+
+/-- `CompleteCooperativeClose` on side `me` with the signatures both sides made for their own
+    proposals (`Chan.complete`: its own plumbing and dust arguments, then the signature check). -/
+def modelComplete (vMe vOther : View) (rMe rOther : CloseReq) : String :=
+  let own := ({ v := vMe } : Chan).proposalTx rMe.fee rMe.localScript rMe.remoteScript rMe.lop rMe.rop (optsOf rMe)
+  let oth := ({ v := vOther } : Chan).proposalTx rOther.fee rOther.localScript rOther.remoteScript rOther.lop rOther.rop (optsOf rOther)
+  match own, oth with
+  | .ok (txo, _), .ok (txr, _) =>
+    match ({ v := vMe } : Chan).complete txo txr rMe.fee rMe.localScript rMe.remoteScript rMe.lop rMe.rop (optsOf rMe) with
+    | .ok (tx, bal, c') => s!"ok bal={bal} closed={if c'.isClosed then 1 else 0} {renderTx tx}"
+    | .error _ => "err"
+  | _, _ => "skip"
 
 /-- monitor for one real-channel close case, evaluated at END from the trace alone. -/
 def chanMonitor (s : St) : IO St := do
@@ -579,6 +598,13 @@ def step (s : St) (line : String) : IO St := do
     let r := resOf ws
     let p := parseProp r
     let mut s := s
+    -- correspondence: CompleteCooperativeClose as its own model function
+    let me := who == "A"
+    if let (some vMe, some vOth, some fee) := ((if me then s.viewA else s.viewB), (if me then s.viewB else s.viewA), kvInt? s.hdr "fee") then
+      let model := modelComplete vMe.v vOth.v (reqOf s.hdr me fee) (reqOf s.hdr (!me) fee)
+      let impl := if p.ok then s!"ok bal={p.bal} closed={(kvNat? r "closed").getD 0} {p.tx}" else "err"
+      if model != "skip" && model != impl then
+        s ← mismatch s s!"complete {who}: model=[{model}] impl=[{impl}]"
     if p.ok then
       if kv? r "engine" != some "ok" then
         s ← monitor s "sig-valid" s!"completed close tx rejected by the script engine against the funding output ({(kv? r "engine").getD "?"})"
